@@ -65,9 +65,9 @@ MUTANTS = [
     ("c17-result-outside-loop", "C17", L + "rsa_single_checks.py",
      "    any_weak = False\n    for key in artifacts:\n      test_result = self._CreateTestResult()\n      e = gmpy.mpz(util.Bytes2Int(key.rsa_info.e))",
      "    any_weak = False\n    test_result = self._CreateTestResult()\n    for key in artifacts:\n      e = gmpy.mpz(util.Bytes2Int(key.rsa_info.e))"),
-    ("c17-table-step-from-cache", "C17", L + "ec_util.py",
-     "    t = 2 * table_size - 1\n",
-     "    t = 2 * self._table_size - 1\n"),
+    # c17-table-step-from-cache (t derived from the cached table size) was
+    # dropped: it is an equivalent mutant (a step derived from the table that
+    # is actually used still covers every x below the bound).
     ("c17-rebuild-only-if-empty", "C17", L + "ec_util.py",
      "    if max_diff > self._table_size:", "    if not self._table_size:"),
     ("c17-fermat-state-on-singleton", "C17", L + "rsa_single_checks.py",
